@@ -188,3 +188,28 @@ PLANS["C03"] = dict(
     assumptions=["the generated protobuf type reads the tile bytes faithfully", "outer rings counter-clockwise and holes clockwise with non-zero area (asserted by the spec per event)"],
     trusted_base=["TLC 2026.09.04", "CommunityModules Json/IOUtils", "vectortile.Tile.Unmarshal (generated code)", "harness interning"],
 )
+
+# ---- C01 -------------------------------------------------------------------------------------------
+
+
+def run_c01(ctx):
+    ctx.mc("WkbMC", "WkbMC_%s.cfg" % ctx.tier, workers=4,
+           note="byte grammar: reference decoder inverts the encoder on the bounded shape set x orders x SRIDs; truncations fail; coercion table total")
+    cases = ctx.tlcgen("WkbGen", "WkbGen.cfg", workers=4)
+    shards = ctx.gen("wkbshapes", cases=cases)
+    ctx.validate("Wkb_Trace", shards, stage="replay-of-TLC-shape-set")
+    shards = ctx.gen("wkbrandom")
+    ctx.validate("Wkb_Trace", shards, stage="random-geometries")
+    ctx.exhaustive = True
+    ctx.notes.append("exhaustive part: the 534-shape bounded set x {wkb, ewkb} x {LE, BE} x SRIDs x 10 scanner destinations x 4 framings")
+
+
+PLANS["C01"] = dict(
+    run=run_c01, signature=sig_default,
+    technique="TLA+ byte grammar of WKB/EWKB with coordinates as opaque 8-byte strings; TLC checks the reference decoder inverts the encoder on a bounded shape set, emits that set for replay, and validates the real bytes and every decode path byte for byte",
+    level_text="TLC checks on every geometry of a bounded shape set (nine kinds + nil, empty and nil-like members, collections to depth 2, header-looking coordinate bytes) x byte orders x SRIDs {absent, 1, 4326, 2^31-1} that the reference decoder inverts the encoder exactly, that every proper prefix fails to decode, and that the scanner coercion table is total. The same 534 shapes are emitted and replayed through the real wkb and ewkb packages (Marshal, Unmarshal, Decoder, Scanner x 10 destinations x raw/hex/\\\\x-hex/SRID-prefix framings, Value, ValuePrefixSRID), and seeded geometries over every float64 class (NaN payloads, infinities, -0, subnormals, random bits; up to 200 vertices, nesting 4); TLC requires the produced bytes to equal the specified encoding byte for byte and every path to return the canonical value with the written SRID under the documented coercions.",
+    level_note="The wkb (non-E) scanner's documented, deprecated SRID-prefix retry heuristic is exercised only for prefixes whose low byte is not 0 or 1 (otherwise the prefix is indistinguishable from a header); ewkb.ScannerPrefixSRID is exercised for all SRIDs. Collections with typed-nil members are outside the quantifier. Scanning into a Bound is judged on coordinate ranks (not for NaN inputs). Trusted: TLC, Json module, bit interning of coordinates, encoding/hex for the framings.",
+    rule="one event = one geometry x package x byte order x SRID with the produced bytes and the result of every decode path; non-trivial = non-nil geometry; distinct = distinct event text",
+    assumptions=["a float64 is identified with its bit pattern (8 bytes) by the harness interning"],
+    trusted_base=["TLC 2026.09.04", "CommunityModules Json/IOUtils", "harness bit interning", "encoding/hex"],
+)
